@@ -80,8 +80,23 @@ PROPS["C13"] = {
 ENGINES.append({"name": "fs", "path": "overlay/verifsim/fs + overlay/verifsim/simos", "serves_properties": ["C13"],
     "kind_free_text": "LocalBackend and internal/durable over a simulated file system; syscall-level scheduling, I/O faults, power-loss images"})
 
+LOCK_NOTE = ("Trusted: SQLite itself (statement atomicity, file locking between connections), the in-process DynamoDB and S3 fakes (written from the API "
+             "documentation: GetItem/PutItem with ConditionExpression and ConsistentRead; GET/PUT with MD5 ETags, If-Match, Tigris' empty If-Match), porcupine. "
+             "Real: the three backends, crawshaw.io/sqlite on a real file, the AWS SDK v2 including its retryer over in-memory connections. "
+             "Not decided: durability of the SQLite file across power loss (synchronous=FULL), separate OS processes (connections in one process instead).")
+PROPS["C05"] = {
+    "engine": "lock", "quick_budget": 45, "thorough_budget": 600, "level_note": LOCK_NOTE,
+    "level_text": "2-4 scripted clients issue Create/Fetch/Replace with unique values (also empty and NUL-containing) against the real SQLite, DynamoDB and ETag backends; the scheduler orders every request at the fake service (or every SQL statement start, through crawshaw's tracer) and injects 500/503, connections cut before or after the effect (lost response, SDK retry of a conditional write) and stale reads for non-consistent GetItem; invoke/return are stamped with the event sequence number and the history per log id is checked with porcupine against a nondeterministic CAS-register model (fault-free operations have strict outcomes; a faulted error may or may not have taken effect), plus direct assertions (not-found error identity, byte-exact round trip, a fresh connection sees the last committed value).",
+    "expect_probes": ["porcupine.ok", "concurrent.ops", "fault.cut-after.ddb.PutItem", "fault.cut-after.s3.PUT", "fault.stale.ddb.GetItem", "reopen"],
+    "real": ["internal/ctlog/sqlite.go, dynamodb.go, etag.go", "crawshaw.io/sqlite on a real database file (several connections)", "aws-sdk-go-v2 (dynamodb, s3, config, retry) over net.Pipe connections inside a synctest bubble"],
+    "stubbed": ["DynamoDB and S3 services: protocol-level in-process fakes", "network: net.Pipe; faults decided by the scheduler", "separate processes: connections/goroutines in one process"],
+    "assumptions": ["the fakes implement the documented conditional-write semantics", "SQLite's own locking and durability are trusted", "sampling: a clean batch is evidence, not proof"],
+}
+ENGINES.append({"name": "lock", "path": "overlay/verifsim/lock", "serves_properties": ["C05"],
+    "kind_free_text": "real lock backends under scripted concurrent clients; request-level scheduling and faults at protocol-level fakes; porcupine"})
+
 NOT_APPLICABLE = {
     "C10": "pure function of its input (codec bijections): no schedule, clock, fault, I/O or second party for a simulator to control; deciding it is input generation (property-based testing), which is outside this technique. See DESIGN.md §6.",
 }
-for _p in ["C05", "C09", "C12", "C14", "C15", "C16", "C18", "C19", "C20"]:
+for _p in ["C09", "C12", "C14", "C15", "C16", "C18", "C19", "C20"]:
     NOT_APPLICABLE[_p] = "not claimed yet: the simulator for this property is still being built (see DESIGN.md §5 for the plan)"
